@@ -299,6 +299,7 @@ def compress_map(E, mask, node=None):
     for a in ax:
         E.assumptions_quant(a)
     E.st.ghost[key] = (m, g, cnt)
+    E.st.ghost.setdefault('cmap_axioms', {})[key] = ax
     return m, g, cnt
 
 
